@@ -1,4 +1,5 @@
 import NomtModel.Store.PushChunkExamples
+import NomtModel.Props.C16_GenFn
 /-!
 # C16 / C01 (topic: the branch-node encoder as a whole — `BranchNodeBuilder::{new, push, push_chunk}` read back by `get_key`)
 
@@ -147,6 +148,19 @@ example : ∃ b1, builderPush exNewBuilder3 (key2 0xAB 0x20) 11 4 = some b1 ∧
     (getKey b2.page 0 = some (key2 0xAB 0x20) ∧ getKey b2.page 1 = getKey exBaseNode 1 ∧ getKey b2.page 2 = getKey exBaseNode 2) :=
   ex_of_isSome (x := runR2) _ runR2_some (ex_of_isSome (x := runR3) _ runR3_some
     ⟨runR3_k0, runR3_k1.trans exBase_k1.symm, runR3_k2.trans exBase_k2.symm⟩)
+
+/-- T16.pc-4b **capacity from the gauge**: the hypothesis `Fit n pl last` of T16.pc-2 / T16.pc-3 is the builders' documented
+precondition in the terms of the CURRENT source: `branch::node::body_size(prefix_len, total_separator_lengths, n)` (the
+translated function, `T16_fn_branch_body_size`) is at most `BRANCH_NODE_BODY_SIZE = 4096 − 10`, for a node with at least one
+item, no separator longer than a key and `prefix_len ≤ 256`.  So under the gauge's bound neither builder call has a panic site. -/
+theorem T16_branch_fit_of_gauge (n pl last bs : Nat) (hg : GenFn.branch_body_size pl last n = some bs) (hbs : bs ≤ 4096 - 10)
+    (hn : 1 ≤ n) (hn32 : n < 2 ^ 32) (hpl : pl ≤ 256) (hlast : last ≤ 256 * n) (hl32 : last < 2 ^ 32) : Fit n pl last := by
+  have h := T16_fn_branch_body_size pl last n hn32 (by omega) hl32
+  rw [h] at hg
+  cases hg
+  exact ⟨by omega, hlast, hpl, hn⟩
+
+example : Fit 2 4 14 := T16_branch_fit_of_gauge 2 4 14 15 (by decide) (by decide) (by decide) (by decide) (by decide) (by decide) (by decide)
 
 /-! ## the forced hypotheses, run on the mirror (the real builder at the same points: `vharness pushchunk-branch`) -/
 
